@@ -38,6 +38,7 @@ type pipe struct {
 	onWrite func(n int)         // delay/yield hook, called before appending (outside lock)
 	capture []byte              // copy of everything ever written (if keep)
 	keep    bool
+	eofWithData bool // the read that drains the last byte of a closed stream returns (n, io.EOF), as crypto/tls does for a close_notify right behind the data
 	failErr error // when set, Write fails with it (a write deadline that expired on a stalled peer, EPIPE)
 }
 
@@ -66,6 +67,10 @@ func Pair() (*Conn, *Conn) {
 	b := &Conn{rd: ab, wr: ba, name: "b", closeCh: make(chan struct{})}
 	return a, b
 }
+
+// EOFWithData makes the Read that takes the last byte of a stream whose writer has closed return (n, io.EOF) in one call
+// (plain TCP returns the EOF on the next call; crypto/tls hands out data and the close_notify together).
+func (c *Conn) EOFWithData() { c.rd.mu.Lock(); c.rd.eofWithData = true; c.rd.mu.Unlock() }
 
 // FailWrites makes every later Write on this end fail with err (nil restores normal service) while reads go on as before -
 // what a socket does whose write deadline keeps expiring because the peer has stopped reading.
@@ -130,6 +135,9 @@ func (c *Conn) Read(p []byte) (int, error) {
 			r.buf = r.buf[n:]
 			if len(r.buf) == 0 {
 				r.buf = nil
+				if r.eofWithData && r.wclosed {
+					return n, io.EOF
+				}
 			}
 			return n, nil
 		}
